@@ -1,7 +1,22 @@
 import CddVerif.Driver.Basic
+import CddVerif.Model.DocSplit
 /-! Driver ops for C15 (line protocol; see Main.lean). Only Mathlib-free imports here. -/
 namespace Driver.C15
-open Lean Driver
+open Lean Driver DocSplit
 
-def ops : List (String × Handler) := []
+def ops : List (String × Handler) := [
+  ("c15.haf", fun j => do
+    let cur ← getChars j "current"; let org ← getChars j "original"
+    match parseHAF cur org with
+    | .ok (h, a, f) => return Json.mkObj [("h", optStr h), ("a", optStr a), ("f", optStr f)]
+    | .error e => return Json.mkObj [("raises", Json.str e)]),
+  ("c15.tostr", fun j => do
+    let h ← getChars j "h"; let a ← getChars j "a"; let f ← getChars j "f"
+    return Json.mkObj [("r", str (hafToStr h a f))]),
+  ("c15.whence", fun j => do
+    let cur ← getChars j "current"; let org ← getChars j "original"
+    match whence cur org with
+    | .ok r => return Json.mkObj [("r", str r)]
+    | .error e => return Json.mkObj [("raises", Json.str e)])
+]
 end Driver.C15
